@@ -177,3 +177,24 @@ _add('C14',
      'Known crash families F-02a/F-02b (interruption of a BLOCKED customer) are matched by frame-level triggers and reported as KNOWN-FINDING. The abstract '
      'loop is tied to simulation.py by the conformance of every observed call, not by proof. Termination (liveness) is not claimed: calls cut by the frame '
      'limit are not judged.')
+_add('C16',
+     'Loop.v (Coq): until_time_split / until_time_split_unique: for every deterministic engine, any fuel, T1 <= T: a call of the '
+     'simulate_until_max_time loop to T1 followed by a call to T executes the same events in the same order and returns the same state as one call '
+     'to T, provided re-entering the loop does not disturb the state at the pause (pick r1 = r1: no tie between nodes there, the case in which '
+     'find_next_active_node would consume a random draw). T1 C16_sound: an accepted pair of outcomes is equal on records, final clock, every '
+     "server's busy and total time (incl. retired servers) and utilisation. K1: pairs of observed runs of the real engine on tie-free networks "
+     '(single call vs 2-5 successive calls), compared exactly; pairs with coinciding events are discarded and counted.',
+     'The wrap-up (server statistics) is outside the abstract loop and is covered by K1 only; F-16a and F-16b (provisional busy time kept after a '
+     'pre-emptive shift change) were repaired in /repo. Values are dyadic (numerator/65536) so float arithmetic is exact.',
+     technique='Coq theorem about a hand-written model of the main loop + exact comparison of split and unsplit runs of the real engine')
+_add('C15',
+     'Process.v (Coq): copy_reproducible: in the object-sharing model of a Python process (global random stream, Network objects with stateful '
+     'members, Simulation objects; any deterministic engine), whatever was built and simulated before by copying constructors, "seed z; build a '
+     'simulation of network n; run k events" yields exactly the outcome of a freshly built network; share_refuted (vm_compute): with a sharing '
+     'constructor (Ciw before the repairs F-15a/c/d) an earlier simulation of the same Network changes the outcome. T1 C15_sound: every outcome of an '
+     'accepted case equals the reference; strict mode: no stateful member is shared. K1: reference = seed; build; run in a FRESH interpreter, compared bit '
+     'for bit (records, final clock, tracker history) with the same steps after earlier simulations, on a re-used Network, and next to a sibling simulation '
+     'of the same Network that runs first; K2: object-identity walk over distributions (incl. nested composite ones), routers, schedules, generators.',
+     'Partial by nature: the Mersenne Twister, numpy generator and copy.deepcopy are trusted library behaviour ("a reseeded generator repeats its stream"); '
+     'the model cannot exhibit a library that seed() does not reset. The identity walk is a correspondence obligation (soft clause).',
+     technique='Coq theorem about a hand-written object-sharing model + metamorphic bit-for-bit comparison against a fresh interpreter + object identity check')
